@@ -50,6 +50,9 @@ fn copy_atomic(src: &Path, dst: &Path) -> std::io::Result<()> {
     tmp.push(".copia-tmp");
     let tmp = PathBuf::from(tmp);
     std::fs::copy(src, &tmp)?;
+    // tmp -> sync_all -> rename: the archive is synced before it is renamed
+    // into place, so the data it describes must be durable first.
+    std::fs::File::open(&tmp)?.sync_all()?;
     std::fs::rename(&tmp, dst)
 }
 
